@@ -125,6 +125,9 @@ func implUnprotect(k *security.IKESAKey, role string, raw []byte, hdr string) st
 		if err != nil {
 			return "err"
 		}
+		if m == nil {
+			return "no-value-no-error"
+		}
 		return okS(sxMsg(m))
 	})
 	return "(" + res + " " + calls() + ")"
@@ -199,7 +202,6 @@ func modelSA(c *Ctx, id string, k skCase) error {
 	_, err := c.M.Ask(fmt.Sprintf("(sa_keys %s %s %s)", id, k.s, k.ks.sx()))
 	return err
 }
-
 
 // caseSA: the implementation's SA object for a case.  Half of the key sets get ONE long-lived object for all operations
 // of the run that use these keys (either role, genuine and forged input), the other half a fresh object per operation:
@@ -443,7 +445,9 @@ func evalC06(c *Ctx, k skCase) error {
 	}
 	r.Count(cs, true, fmt.Sprintf("suite:%s/%s role:%s", k.s.e, k.s.i, k.role))
 	r.Sample(cs)
-	fail := func(what, exp, obs string) { r.Add(Finding{Kind: "instance", What: what, Case: cs, Expected: exp, Observed: obs}) }
+	fail := func(what, exp, obs string) {
+		r.Add(Finding{Kind: "instance", What: what, Case: cs, Expected: exp, Observed: obs})
+	}
 	if wire == nil {
 		fail("message not protected", "(ok ...)", impl)
 		return nil
@@ -805,6 +809,8 @@ func runC17(c *Ctx) error {
 		var justAccepted []byte // a genuine datagram the long-lived object accepted in the previous step
 		var justRole string
 		var lastChild []string // transforms and nonce of the previous Child SA derivation of this history
+		var accepted [][]byte  // genuine datagrams the long-lived object has accepted, with the receiving role
+		var acceptedRoles []string
 		for step := 0; step < n; step++ {
 			var op, implLong, implFresh, model string
 			atCtx(fmt.Sprintf("(history %s (%s) %s)", s, ks.sx(), strings.Join(hist, " ")))
@@ -866,6 +872,15 @@ func runC17(c *Ctx) error {
 				if wire == nil {
 					continue
 				}
+				if len(accepted) > 0 && rng.Chance(1, 3) {
+					// a retransmission: the very octets of a genuine message this object accepted earlier in the history
+					// (IKE retransmits requests and responses unchanged) - still genuine, still accepted by a fresh peer
+					j := len(accepted) - 1
+					if rng.Chance(1, 3) {
+						j = rng.Intn(len(accepted))
+					}
+					wire, role = accepted[j], other(acceptedRoles[j])
+				}
 				hdr := []string{"nohdr", "parsed"}[rng.Intn(2)]
 				op = fmt.Sprintf("(unprotect %s %s %s)", other(role), hx(wire), hdr)
 				implLong = implUnprotect(long, other(role), rx(wire), hdr)
@@ -878,6 +893,7 @@ func runC17(c *Ctx) error {
 					r.Add(Finding{Kind: "instance", What: "a genuine message from a fresh peer is rejected late in a history", Case: strings.Join(append(hist, op), " "), Expected: "((ok ...", Observed: implLong})
 				} else {
 					justAccepted, justRole = wire, other(role)
+					accepted, acceptedRoles = append(accepted, wire), append(acceptedRoles, other(role))
 				}
 			case 3: // tampered / truncated / garbage
 				var raw []byte
